@@ -4,7 +4,7 @@ From GV.Model Require Import SEval.
 From GV.Proofs Require Import StatusProps EvalLaws CompareProps NegationProps TableProps.
 From GV.Generated Require Import EvalTables.
 From GV.Model Require Import ValueParse QueryParse OpParse ClauseParse.
-From GV.Proofs Require Import ValueSpellProps OpParseProps ClauseParseProps.
+From GV.Proofs Require Import ValueSpellProps QuerySpellProps OpParseProps ClauseParseProps ClauseSpellProps.
 
 (* `not X exists` == `X !exists`, likewise empty and the is_* tests: same status, same
    final state, for every query, all/some, every callee evaluator, every state *)
@@ -111,3 +111,10 @@ Theorem C03_no_negation_is_invented : forall rv n s c rest,
   not_kw (skip_ws_comments s) = None -> clause rv n s = POk c rest -> pc_neg c = false.
 Proof. exact no_negation_is_invented. Qed.
 Print Assumptions C03_no_negation_is_invented.
+
+(* whichever way the negation in front of a clause is spelled (not / NOT with any blanks, !), and whatever the spelling of the rest,
+   the parsed clause carries exactly that negation and exactly the operator (with the operator's own negation) that was written *)
+Theorem C03_spelled_negation_sets_the_flag : forall rv c o rest, cwf rv c o -> cfollow rv c rest ->
+  exists pc r, clause_top rv (crender rv c +++ rest) = POk pc r /\ pc_neg pc = neg_flag (cl_neg c) /\ pc_cmp pc = o.
+Proof. exact spelled_negation_sets_the_flag. Qed.
+Print Assumptions C03_spelled_negation_sets_the_flag.
